@@ -574,9 +574,11 @@ class NDNApp:
         node.append_interest(future, deadline, interest_param, validator, implicit_sha256)
         self.face.send(raw_interest)
         # The caller may start to await the result much later (or never): the lifetime has a timer of its own
+        # (on the loop's clock: a step of the system clock does not change how long the lifetime is)
         lifetime = interest_param.lifetime if interest_param.lifetime is not None else DEFAULT_LIFETIME
-        aio.get_running_loop().call_later(lifetime / 1000.0, self._expire_interest, future, node_name, node)
-        return self._wait_for_data(future, deadline, node_name, node)
+        loop_deadline = aio.get_running_loop().time() + lifetime / 1000.0
+        aio.get_running_loop().call_at(loop_deadline, self._expire_interest, future, node_name, node)
+        return self._wait_for_data(future, loop_deadline, node_name, node)
 
     def _expire_interest(self, future: aio.Future, node_name: enc.FormalName, node: InterestTreeNode):
         if future.done():
@@ -587,15 +589,13 @@ class NDNApp:
         # Nobody may be waiting (yet): do not let asyncio report the exception as never retrieved
         future.exception()
 
-    async def _wait_for_data(self, future: aio.Future, deadline: int, node_name: enc.FormalName,
+    async def _wait_for_data(self, future: aio.Future, loop_deadline: float, node_name: enc.FormalName,
                              node: InterestTreeNode):
-        lifetime = deadline - utils.timestamp()
-        if lifetime <= 0:
-            # This happens if the application sends an Interest, does some calculation, and then fetches the result.
-            # The Interest should be satisfied now. Thus, it should not be considered as an error.
-            lifetime = 100
+        # The application may send an Interest, do some calculation, and then fetch the result: by then the
+        # future holds the outcome (the lifetime timer has decided it at the latest)
+        remaining = max(loop_deadline - aio.get_running_loop().time(), 0)
         try:
-            data_name, content, pkt_context = await aio.wait_for(future, timeout=lifetime/1000.0)
+            data_name, content, pkt_context = await aio.wait_for(future, timeout=remaining)
         except TimeoutError:
             # The node may have been removed from the PIT already (all of its entries got a Data and are
             # being validated), and a newer node may sit at the same name: only delete this very node.
